@@ -2,6 +2,7 @@ package core
 
 import (
 	"fmt"
+	"go/token"
 	"go/types"
 	"regexp"
 	"sort"
@@ -289,4 +290,141 @@ func (r CONE) Check(w *World) []Result {
 		out = append(out, one(r.ID, "CONE", construct, Discharged, len(order), "", fmt.Sprintf("cone of %d functions, %d effect instructions scanned, none forbidden", len(order), ninstr)))
 	}
 	return out
+}
+
+// ReceiverWriters computes, for methods with a pointer receiver of the given named type (short name), the set that
+// write memory reachable through the receiver's fields: a store / map update / delete on `$0.<field>…`, a mutating
+// call on a sync.Map / atomic field of the receiver, or (transitively) a call of another writer method on `$0`.
+func (w *World) ReceiverWriters(typeShorts ...string) map[*ssa.Function]string {
+	var methods []*ssa.Function
+	for _, fn := range w.Fns {
+		for _, typeShort := range typeShorts {
+			if strings.HasPrefix(FnName(fn), "(*"+typeShort+").") && fn.Parent() == nil && fn.Synthetic == "" {
+				methods = append(methods, fn)
+			}
+		}
+	}
+	syncCall := regexp.MustCompile(`^call \(\*sync\.Map\)\.(Store|Delete|LoadOrStore|LoadAndDelete|Swap|CompareAndSwap|CompareAndDelete|Clear)\(|^call \(\*sync/atomic\.\w+\)\.(Store|Add|Swap|CompareAndSwap)\(`)
+	writers := map[*ssa.Function]string{}
+	for _, fn := range methods {
+		for _, f := range WithClosures(fn) {
+			for _, b := range f.Blocks {
+				for _, in := range b.Instrs {
+					var target ssa.Value
+					switch x := in.(type) {
+					case *ssa.Store:
+						target = x.Addr
+					case *ssa.MapUpdate:
+						target = x.Map
+					case *ssa.Call:
+						if bi, ok := x.Call.Value.(*ssa.Builtin); ok && bi.Name() == "delete" && len(x.Call.Args) > 0 {
+							target = x.Call.Args[0]
+						} else if syncCall.MatchString(w.RenderInstr(in)) && len(x.Call.Args) > 0 {
+							target = x.Call.Args[0]
+						}
+					}
+					if target == nil {
+						continue
+					}
+					if root, steps := w.AddrRoot(target); steps > 0 && isParam0(root) {
+						if _, ok := writers[fn]; !ok {
+							writers[fn] = clip(w.RenderInstr(in), 100) + " @" + w.InstrPos(in)
+						}
+					}
+				}
+			}
+		}
+	}
+	for changed := true; changed; {
+		changed = false
+		for _, fn := range methods {
+			if _, ok := writers[fn]; ok {
+				continue
+			}
+			for _, f := range WithClosures(fn) {
+				for _, b := range f.Blocks {
+					for _, in := range b.Instrs {
+						ci, ok := in.(ssa.CallInstruction)
+						if !ok {
+							continue
+						}
+						callee := ci.Common().StaticCallee()
+						if callee == nil {
+							continue
+						}
+						if why, isW := writers[callee]; isW && len(ci.Common().Args) > 0 {
+							if root, _ := w.AddrRoot(ci.Common().Args[0]); isParam0(root) {
+								writers[fn] = "calls " + FnName(callee) + " (" + clip(why, 80) + ")"
+								changed = true
+							}
+						}
+					}
+				}
+			}
+		}
+	}
+	return writers
+}
+
+func isParam0(v ssa.Value) bool {
+	p, ok := v.(*ssa.Parameter)
+	return ok && paramIndex(p) == 0 && p.Parent().Signature.Recv() != nil
+}
+
+// AddrRoot follows an address/value back to the object it is derived from, counting the field/index/lookup
+// steps taken. Loads, conversions, captured variables and single-store locals are transparent.
+func (w *World) AddrRoot(v ssa.Value) (ssa.Value, int) {
+	steps := 0
+	for i := 0; i < 64; i++ {
+		switch x := v.(type) {
+		case *ssa.FieldAddr:
+			v = x.X
+			steps++
+		case *ssa.Field:
+			v = x.X
+			steps++
+		case *ssa.IndexAddr:
+			v = x.X
+			steps++
+		case *ssa.Index:
+			v = x.X
+			steps++
+		case *ssa.Lookup:
+			v = x.X
+			steps++
+		case *ssa.UnOp:
+			if x.Op != token.MUL {
+				return v, steps
+			}
+			if a, ok := x.X.(*ssa.Alloc); ok {
+				// a load of a local: see through it when it has exactly one store (spilled parameter, := once)
+				sts := w.storesTo(a)
+				if len(sts) != 1 {
+					return a, steps
+				}
+				v = sts[0].Val
+				continue
+			}
+			v = x.X
+		case *ssa.Extract:
+			v = x.Tuple
+		case *ssa.ChangeType:
+			v = x.X
+		case *ssa.MakeInterface:
+			v = x.X
+		case *ssa.TypeAssert:
+			v = x.X
+		case *ssa.Slice:
+			v = x.X
+		case *ssa.FreeVar:
+			b := w.FreeVarBinding(x)
+			if b == nil {
+				return v, steps
+			}
+			v = b
+		default:
+			return v, steps
+		}
+	}
+	return v, steps
 }
